@@ -48,7 +48,7 @@ fn norm(v: &[f64]) -> f64 {
 
 /// closed-form ESH update (Steeg & Gallagher 2021), written from the formula in the Math trait's
 /// documentation, in plain scalar arithmetic
-fn ref_esh(grad: &[f64], mom: &[f64], step: f64) -> (Vec<f64>, f64, f64, f64) {
+pub fn ref_esh(grad: &[f64], mom: &[f64], step: f64) -> (Vec<f64>, f64, f64, f64) {
     let n = grad.len() as f64;
     let gnorm = norm(grad);
     let ghat: Vec<f64> = grad.iter().map(|g| g / gnorm).collect();
